@@ -3,6 +3,7 @@ package world
 import (
 	"fmt"
 	"strings"
+	"sync/atomic"
 	"time"
 
 	"github.com/trustbloc/sidetree-core-go/pkg/api/operation"
@@ -188,8 +189,30 @@ func classify(err error) string {
 	return "EOther"
 }
 
-// Run resolves the history on the real processor.
-func (h *History) Run(pc protocol.Client, tb *Table, oidOf func(*operation.AnchoredOperation) int64) (out Outcome) {
+// ResolutionTimeouts counts resolutions that did not terminate within the bound; after a few of them the
+// remaining histories of the run are not started any more (their goroutines would spin forever).
+var ResolutionTimeouts int32
+
+// ResolutionBound is the wall-clock bound for one resolution.
+var ResolutionBound = 15 * time.Second
+
+// Run resolves the history on the real processor, bounded in time: non-termination is an observed outcome.
+func (h *History) Run(pc protocol.Client, tb *Table, oidOf func(*operation.AnchoredOperation) int64) Outcome {
+	if atomic.LoadInt32(&ResolutionTimeouts) >= 3 {
+		return Outcome{Panic: "timeout: not started, earlier resolutions of this run did not terminate"}
+	}
+	ch := make(chan Outcome, 1)
+	go func() { ch <- h.run(pc, tb, oidOf) }()
+	select {
+	case o := <-ch:
+		return o
+	case <-time.After(ResolutionBound):
+		atomic.AddInt32(&ResolutionTimeouts, 1)
+		return Outcome{Panic: fmt.Sprintf("timeout: resolution did not terminate within %s", ResolutionBound)}
+	}
+}
+
+func (h *History) run(pc protocol.Client, tb *Table, oidOf func(*operation.AnchoredOperation) int64) (out Outcome) {
 	defer func() {
 		if r := recover(); r != nil {
 			out = Outcome{Panic: fmt.Sprint(r)}
